@@ -665,6 +665,25 @@ func c20Run(c c20Case, r *hx.Rec) error {
 		return fmt.Errorf("`key id` on a missing file exits 0")
 	}
 
+	// ---- explicit file paths and a strip prefix, both spelled with a leading "./" (as a Makefile would)
+	if err := os.MkdirAll(filepath.Join(e.proj, "docs"), 0o755); err == nil {
+		_ = os.WriteFile(filepath.Join(e.proj, "docs", "guide.txt"), []byte("how to build\n"), 0o644)
+		spelledKey := hx.PoolKey(c.Steps[0].Key)
+		priv, _ := e.keyFiles(c.Steps[0].Key)
+		res := cli(e.proj, "run", "-n", "spelled", "-k", priv, "-d", e.meta, "-m", "./docs/guide.txt", "-p", "./docs/guide.txt", "-l", "./docs/", "-x")
+		if res.exit != 0 {
+			return fmt.Errorf("`run -p ./docs/guide.txt -l ./docs/ -x` failed (exit %d): %s", res.exit, res.stderr)
+		}
+		want, werr := c20RefRecord(e.proj, hx.RecOpts{Paths: []string{"./docs/guide.txt"}, Algs: []string{"sha256"}, Strips: []string{"./docs/"}})
+		md, lerr := intoto.LoadMetadata(filepath.Join(e.meta, hx.LinkFileName("spelled", spelledKey.KeyID)))
+		if werr != nil || lerr != nil {
+			return fmt.Errorf("spelled paths: reference %v, link %v", werr, lerr)
+		}
+		if lk, ok := md.GetPayload().(intoto.Link); !ok || !c13Equal(lk.Products, want) || !c13Equal(lk.Materials, want) {
+			return fmt.Errorf("`run -m ./docs/guide.txt -p ./docs/guide.txt -l ./docs/`: recorded %v / %v, the paths as given with the prefix as given stripped are %v", lk.Materials, lk.Products, want)
+		}
+	}
+
 	// ---- match-products against the (perturbed) project directory
 	return c20MatchProducts(c, e, lastLink, lastLinkCopy, pristine)
 }
